@@ -205,6 +205,37 @@ Proof.
   destruct Hmm as [H|H]; congruence.
 Qed.
 
+(* FunctionGrid / DensityGrid (not localized), free horizon: the rows emitted at k bound interval k *)
+Theorem nodes_minmax_enforced (go : grid_opts) (nodes : list Q) N (t0 T : F) Tl t0l :
+  go_spec go = GNodes nodes -> go_localize_T go = false ->
+  (go_min go <> None \/ go_max go <> None) ->
+  forall k, S k < length nodes ->
+  (forall r, In r (bounds_T go N true T Tl t0l k) -> le (rw_h r) o0) ->
+    let cg := time_grid (GNodes nodes) t0 T N in
+    let len := nth (S k) cg o0 -! nth k cg o0 in
+    le (qbound (go_min go) o0) len /\
+    match go_max go with Some mx => le len (of_Q mx) | None => True end.
+Proof.
+  intros Hs HlT Hmm k Hk Hrows. cbn zeta.
+  rewrite !nodes_grid.
+  assert (E1 : Nat.ltb (S k) (length nodes) = true) by (apply Nat.ltb_lt; lia).
+  assert (E2 : Nat.ltb k (length nodes) = true) by (apply Nat.ltb_lt; lia).
+  rewrite E1, E2.
+  replace (t0 +! of_Q (nth (S k) nodes 0%Q) *! T -! (t0 +! of_Q (nth k nodes 0%Q) *! T))
+    with (T *! (of_Q (nth (S k) nodes 0%Q) -! of_Q (nth k nodes 0%Q))) by ring.
+  apply (minmax_rows_iff le le_add go (Z.of_nat k)).
+  intros r Hr. apply Hrows.
+  unfold bounds_T, loc_T, is_free. rewrite Hs, HlT. cbn [orb].
+  apply in_or_app. left.
+  assert (Hn : forall j, nth j (@normalized F OF (GNodes nodes) N) o0 = of_Q (nth j nodes 0%Q) \/ length nodes <= j).
+  { intro j. cbn [normalized]. destruct (Nat.lt_ge_cases j (length nodes)) as [Hj|Hj]; [left|right; exact Hj].
+    rewrite (nth_indep _ o0 (of_Q 0%Q)) by (rewrite map_length; exact Hj). apply (map_nth of_Q). }
+  destruct (Hn (S k)) as [A|A]; [|lia]. destruct (Hn k) as [B|B]; [|lia].
+  rewrite A, B.
+  destruct (go_min go), (go_max go); try exact Hr.
+  destruct Hmm as [H|H]; congruence.
+Qed.
+
 End UniformMinMax.
 
 End GridProofs.
